@@ -221,6 +221,8 @@ def build(spec, da=None, attrs=None):
 def pyscalar(x):
     if isinstance(x, np.generic):
         return x.item()
+    if isinstance(x, np.ndarray) and x.ndim == 0:
+        return x.item()
     return x
 
 
